@@ -42,7 +42,7 @@ theorem C19_disk_independent [BEq δ] [Inhabited α] (c : Cfg α δ) (hm : c.mem
     whatever the operation answered — also when a transient I/O fault made it raise ReadError (the
     handle stays in the table, open and current). -/
 theorem C19_disk_run_keeps_current [BEq δ] [Inhabited α] (c : Cfg α δ) (d : Disk α)
-    (arg fault : Option Nat) (op : Handles.Op) (o : Obj) (h : noStale d o.tbl = true) :
+    (arg : Option Nat) (fault : Option Fault) (op : Handles.Op) (o : Obj) (h : noStale d o.tbl = true) :
     noStale d (run c d arg fault op o).obj.tbl = true :=
   run_keeps_noStale c d arg fault op o h
 
@@ -92,7 +92,8 @@ theorem C19_disk_open_bound [BEq δ] [Inhabited α] (c : Cfg α δ) (d : Disk α
   runAllD_bound c d ss o h
 
 /-- `close()` and leaving the context forget every handle — stale ones included. -/
-theorem C19_disk_close [BEq δ] [Inhabited α] (c : Cfg α δ) (d : Disk α) (a f : Option Nat) (o : Obj) :
+theorem C19_disk_close [BEq δ] [Inhabited α] (c : Cfg α δ) (d : Disk α) (a : Option Nat) (f : Option Fault)
+    (o : Obj) :
     (run c d a f .close o).obj.tbl = [] ∧ (run c d a f .ctxExit o).obj.tbl = [] := ⟨rfl, rfl⟩
 
 /-- What the specification of a complete sequential iteration IS: the items of property C10's
@@ -176,28 +177,88 @@ example : (runAllD (cD false) dD [.op none none .iterFull, .disk (.rewrite 1 [13
        (.bool true, true)] := by
   decide
 
-/-! ### documented outcomes only?  Not with a stale handle (finding D19c) -/
+/-! ### documented outcomes only?  Not with a stale handle (D19e), not with a seek fault in `iter_pieces` (D19d) -/
 
-/-- "Every answer is a piece / digest / bool / None or one of the documented errors": FALSE for the
-    code as it is. -/
+/-- "Every error answer of a fault-free history is one of the documented errors (ValueError,
+    ReadError, VerifyFileSizeError)": FALSE for the code as it is (since 685c3fc the TypeError of
+    finding D19c is gone; what remains is `get_piece`'s own length assertion). -/
 def C19_disk_documented_errors_full : Prop :=
-  ∀ ss : List (Step Nat Nat), ∀ r ∈ runAllD (cD false) dD ss {}, r.out ≠ .err .typeError
+  ∀ ss : List (Step Nat Nat), ss.all Step.faultFree = true →
+    ∀ r ∈ runAllD (cD false) dD ss {}, ∀ e, r.out = .err e → e.documented = true
 
-/-- `get_piece` finds the cached handle of a file whose path has been removed, the size lookup
-    returns `None`, and constructing `VerifyFileSizeError(path, None, size)` raises TypeError. -/
+/-- File 1 is one byte short (a partial download); `get_piece(1)` reports the size — and caches the
+    handle it has opened before the check; the complete file is moved in place (`os.replace`); the
+    next `get_piece(1)` finds the cached handle, the size of the PATH is right, the old inode
+    yields 2 bytes instead of 3: AssertionError (finding D19e). -/
 theorem C19_disk_documented_errors_counterexample : ¬ C19_disk_documented_errors_full := by
   intro h
-  have := h [.op none none .iterFull, .disk (.unlink 0), .op none none (.getPiece 0)]
+  have := h [.disk (.truncate 1 3), .op none none (.getPiece 1), .disk (.replace 1 [13, 14, 15, 16]),
+    .op none none (.getPiece 1)] rfl ⟨.err .assertion, 1, false⟩ (by decide) .assertion rfl
+  exact absurd this (by decide)
+
+/-- the answers of that history: size error, then the assertion; a fresh object reads the new file -/
+example : (runAllD (cD false) dD [.disk (.truncate 1 3), .op none none (.getPiece 1),
+      .disk (.replace 1 [13, 14, 15, 16]), .op none none (.getPiece 1)] {}).map (fun r => (r.out, r.clean))
+    = [(.none, true), (.err .size, true), (.none, true), (.err .assertion, false)] := by decide
+example : freshAllD (cD false) dD [.disk (.truncate 1 3), .op none none (.getPiece 1),
+      .disk (.replace 1 [13, 14, 15, 16]), .op none none (.getPiece 1)]
+    = [.none, .err .size, .none, .piece [14, 15, 16]] := by decide
+
+/-- … but only then: a fault-free operation that starts without a stale handle of a path it reads
+    answers with documented errors only (for every torrent whose geometry helpers are consistent —
+    property C11 —, every disk and history); `internal` = an exception escaping the missing-file
+    loop of `iter_pieces`, excluded by `C10_no_internal_error` under C10's hypothesis via
+    `C19_disk_iter_is_C10`. -/
+theorem C19_disk_documented_errors_partial [BEq δ] [Inhabited α] (c : Cfg α δ) (hm : c.memo = false)
+    (hg : GeomConsistent c) (d : Disk α) (arg : Option Nat) (op : Handles.Op) (o : Obj)
+    (h : cleanFor c d arg op o.tbl = true) (e : Err) (he : (run c d arg none op o).out = .err e) :
+    e.documented = true ∨ e = .internal := by
+  rw [run_clean c hm d arg op o h] at he
+  exact specOut_documented c hg d arg op e he
+
+/-- non-vacuity: the geometry of the concrete torrent is consistent -/
+example : GeomConsistent (cD false) := by
+  intro n
+  match n with
+  | 0 => show readLen [2, 4, 2] [0, 1] 0 3 = Handles.expLen 3 8 0; decide
+  | 1 => show readLen [2, 4, 2] [1] 1 3 = Handles.expLen 3 8 1; decide
+  | n + 2 =>
+    simp [cD, readLen, Missing.sizeOf, Handles.expLen, Cfg.total]
+    omega
+
+/-- regression, finding D19c (repaired by 685c3fc): `iter_pieces(); unlink file 0; get_piece(0)` on
+    one object reads the old inode through the cached handle — no TypeError; the row is not clean
+    (a fresh object reports the missing file) -/
+example : (runAllD (cD false) dD [.op none none .iterFull, .disk (.unlink 0), .op none none (.getPiece 0),
+      .op none none (.getPieceHash 0)] {}).map (fun r => (r.out, r.clean))
+    = [(.items [⟨some [1, 2, 3], 0, []⟩, ⟨some [4, 5, 6], 0, []⟩, ⟨some [7, 8], 0, []⟩], true),
+       (.none, true), (.piece [1, 2, 3], false), (.digest 6, false)] := by decide
+example : freshAllD (cD false) dD [.op none none .iterFull, .disk (.unlink 0), .op none none (.getPiece 0),
+      .op none none (.getPieceHash 0)]
+    = [.items [⟨some [1, 2, 3], 0, []⟩, ⟨some [4, 5, 6], 0, []⟩, ⟨some [7, 8], 0, []⟩], .none,
+       .err .readNoent, .none] := by decide
+
+/-- "A transient OSError from `seek()` / `read()` surfaces as ReadError, never as a raw OSError":
+    FALSE for the code as it is. -/
+def C19_fault_is_read_error_full : Prop :=
+  ∀ ss : List (Step Nat Nat), ∀ r ∈ runAllD (cD false) dD ss {}, r.out ≠ .err .osError
+
+/-- `fh.seek(skip_bytes)` of `_iter_from_file_handle` stands before the try block: a seek fault
+    inside `iter_pieces()` escapes as OSError (finding D19d). -/
+theorem C19_fault_is_read_error_counterexample : ¬ C19_fault_is_read_error_full := by
+  intro h
+  have := h [.op none (some ⟨1, true⟩) .iterFull]
   revert this
   decide
 
-/-- … but only then: an operation that starts without a stale handle of a file it reads never
-    answers with the TypeError (for every torrent, disk and history). -/
-theorem C19_disk_documented_errors_partial [BEq δ] [Inhabited α] (c : Cfg α δ) (hm : c.memo = false)
-    (hg : ∀ n, c.geom n ≠ .error .typeError) (d : Disk α) (arg : Option Nat) (op : Handles.Op) (o : Obj)
-    (h : cleanFor c d arg op o.tbl = true) : (run c d arg none op o).out ≠ .err .typeError := by
-  rw [run_clean c hm d arg op o h]
-  exact specOut_no_typeError c hg d arg op
+/-- … and that is the only way: read faults anywhere, and seek faults inside `get_piece` /
+    `get_piece_hash` / `verify_piece`, never produce a raw OSError (any torrent, disk, object). -/
+theorem C19_fault_is_read_error_partial [BEq δ] [Inhabited α] (c : Cfg α δ)
+    (hg : ∀ n, c.geom n ≠ .error .osError) (d : Disk α) (arg : Option Nat) (fault : Option Fault)
+    (op : Handles.Op) (o : Obj)
+    (hf : (∀ f, fault = some f → f.seek = false) ∨ (op ≠ .iterFull ∧ ∀ k, op ≠ .iterAbandon k)) :
+    (run c d arg fault op o).out ≠ .err .osError :=
+  run_no_osError c hg d arg fault op o hf
 
 /-! ### content paths and faults -/
 
@@ -214,11 +275,15 @@ example : (runAllD (cD false) dTwo [.op (some 0) none (.verifyPiece 1), .op (som
     = [(.bool true, 1, true), (.bool false, 2, true), (.bool true, 2, true), (.piece [4, 0, 6], 2, true)] := by
   decide
 
-/-- a transient fault: the read of file 1 fails once inside `get_piece(0)` → ReadError; the handles
-    of files 0 and 1 stay; the same call again, and every other call, answers as a fresh object -/
-example : (runAllD (cD false) dD [.op none (some 1) (.getPiece 0), .op none none (.getPiece 0),
-      .op none (some 1) .iterFull, .op none none .iterFull] {}).map (fun r => (r.out, r.nopen, r.clean))
+/-- transient faults: the read of file 1 fails once inside `get_piece(0)` → ReadError; the handles
+    of files 0 and 1 stay; the same call again answers as a fresh object; read fault in `iter_pieces`
+    and seek fault in `verify_piece` → ReadError; seek fault in `iter_pieces` → OSError (D19d);
+    afterwards a complete iteration answers as a fresh object -/
+example : (runAllD (cD false) dD [.op none (some ⟨1, false⟩) (.getPiece 0), .op none none (.getPiece 0),
+      .op none (some ⟨1, false⟩) .iterFull, .op none (some ⟨1, true⟩) (.verifyPiece 1),
+      .op none (some ⟨2, true⟩) .iterFull, .op none none .iterFull] {}).map (fun r => (r.out, r.nopen, r.clean))
     = [(.err .readOther, 2, false), (.piece [1, 2, 3], 2, true), (.err .readOther, 2, false),
+       (.err .readOther, 2, false), (.err .osError, 3, false),
        (.items [⟨some [1, 2, 3], 0, []⟩, ⟨some [4, 5, 6], 0, []⟩, ⟨some [7, 8], 0, []⟩], 3, true)] := by
   decide
 
